@@ -544,6 +544,16 @@ pub fn draw(w: &mut Rng, size: u64) -> Drawn {
         }
     }
     let (calamus, mappings) = draw_mappings(w, &wd, &main, &libs, size);
+    // a library that bundles an older copy of a class of the main jar, with other super types (no methods): the main
+    // jar's own class file is the one that counts, on both sides of the naming (missed seeded change C15-15: the
+    // hierarchy in the intermediary namespace merged with "last jar wins")
+    if !libs.is_empty() && !main.classes.is_empty() && w.chance(12) {
+        let li = w.usize(libs.len());
+        let c = w.pick(&main.classes).clone();
+        if !libs[li].classes.iter().any(|x| x.name == c.name) {
+            libs[li].classes.push(ClassSpec { sup: Some("java/lang/Object".into()), ifs: vec![], methods: vec![], fields: vec![], ..c });
+        }
+    }
     Drawn { main, libs, calamus, mappings }
 }
 
